@@ -736,4 +736,49 @@ theorem forwards_received (l : List LIn) (s s' : LSt) (seen : List Nat) (h : Tag
         · exact Or.inl (h2 t h3)
         · simpa [outers] using ih s1 seen h1 hs t h3
 
+/-! ## readiness answers other than `ready` license nothing -/
+
+/-- a `poll_ready` that did not return `Ready(Ok)` leaves the contract monitor as it was, except that a
+failed service is no longer ready -/
+theorem Mon.step_poll_not_ready (m m' : Mon) (i : Nat) (r : PollRes) (hr : r ≠ .ready)
+    (h : m.step (.poll i r) = some m') : m'.n = m.n ∧ ∀ j, m'.ready j = true → m.ready j = true := by
+  simp only [Mon.step] at h
+  split at h
+  · cases h
+    refine ⟨rfl, ?_⟩
+    intro j hj
+    simp only [upd] at hj
+    split at hj
+    · rename_i hji; subst hji; simpa [hr] using hj
+    · exact hj
+  · cases h
+
+/-- However often an instance that is not ready is polled — `Pending` for a stretch of time, or an error —
+the call that follows is a contract violation: only `Ready(Ok)` licenses a call. -/
+theorem Mon.not_ready_polls_then_call (m : Mon) (i tag : Nat) (rs : List PollRes) (hrs : ∀ r ∈ rs, r ≠ .ready)
+    (hi : m.ready i = false) : m.run (rs.map (fun r => Ev.poll i r) ++ [Ev.call i tag]) = none := by
+  induction rs generalizing m with
+  | nil => simp [Mon.run, Mon.step, hi]
+  | cons r tl ih =>
+    simp only [List.map_cons, List.cons_append, Mon.run]
+    cases hs : m.step (.poll i r) with
+    | none => rfl
+    | some m' =>
+      have h := Mon.step_poll_not_ready m m' i r (hrs r (by simp)) hs
+      have hi' : m'.ready i = false := by
+        cases hm : m'.ready i with
+        | false => rfl
+        | true => have := h.2 i hm; simp [hi] at this
+      exact ih m' (fun r hr => hrs r (by simp [hr])) hi'
+
+/-- the layer automaton agrees: a readiness answer other than `ready` never arms an instance a request owns -/
+theorem innerPoll_not_ready_keeps (s s' : LSt) (i : Nat) (r : PollRes) (b : Bool) (hr : r ≠ .ready)
+    (h : innerPoll s i r b = some s') : s'.owned = s.owned := by
+  simp only [innerPoll] at h
+  split at h
+  · cases h; simp [hr]
+  · split at h
+    · cases h; rfl
+    · cases h
+
 end TR.Stack
